@@ -175,10 +175,14 @@ def rustc_expand(so, src_path, d, k, plan):
     except OSError:
         pass
     env = dict(ENV, ENUM_TOOLS_VERIF_HASH=plan, ENUM_TOOLS_VERIF_DUMP=dump)
+    # every process also gets its own working directory and cargo-like environment
+    env.update({"CARGO_PKG_NAME": "pkg%d" % k, "CARGO_PKG_VERSION": "0.%d.0" % k, "CARGO_MANIFEST_DIR": out,
+                "OUT_DIR": out, "PROFILE": ("debug", "release")[k % 2], "SOURCE_DATE_EPOCH": str(1_000_000 * k),
+                "TZ": ("UTC", "Pacific/Kiritimati", "America/Los_Angeles")[k % 3]})
     cmd = ["rustc", "--edition", "2021", "--crate-type", "lib", "--crate-name", "expreal", "--emit=metadata",
            "--out-dir", out, "--extern", "enum_tools=" + so, "-L", "dependency=" + os.path.join(TARGET, "debug", "deps"),
            "--cap-lints", "allow", src_path]
-    return dump, subprocess.Popen(cmd, env=env, stdout=subprocess.DEVNULL, stderr=subprocess.PIPE, text=True)
+    return dump, subprocess.Popen(cmd, env=env, cwd=out, stdout=subprocess.DEVNULL, stderr=subprocess.PIPE, text=True)
 
 
 def compare_real(so, src_path, d, plans, expected, g):
